@@ -45,6 +45,13 @@ def units(tier, variant):
     qs = [('category_name', c) for c in cats] + [('name', n) for n in names]
     for i in range(0, len(qs), B):
         out.append(dict(kind='lookup', queries=qs[i:i + B]))
+    # (name, reference) pairs whose reference is contained in the reference of another row of the same name
+    by_name = {}
+    for r in rows:
+        by_name.setdefault(r['category_name'], set()).add(str(r['reference']))
+    amb = sorted((n_, a_) for n_, refs in by_name.items() for a_ in refs for b_ in refs if a_ != b_ and a_.lower() in b_.lower())
+    if amb:
+        out.append(dict(kind='lookup2', queries=amb))
     if tier == 'thorough':
         pairs = sorted(set((r['category_name'], r['reference']) for r in rows))
         for i in range(0, len(pairs), B):
@@ -118,6 +125,17 @@ def run_rows(part, unit):
                 not np.allclose(got_a[ok], got_s[ok], rtol=1e-13, atol=0):
             part.violation(PID, 'scalar-equals-array', 'MaterialFile.n', cf, dict(file=rel), observed=got_a[:3],
                            expected=got_s[:3])
+        wi = [w_ for w_ in (1, 2, 5, 10) if lo <= w_ <= hi]
+        if wi:
+            try:
+                gi = np.asarray(m.n(np.array(wi)), dtype=float)        # integer array
+                gf = np.array([float(np.ravel(m.n(float(w_)))[0]) for w_ in wi])
+                part.evals += 1
+                if gi.shape != gf.shape or not np.allclose(gi, gf, rtol=1e-13, atol=0):
+                    part.violation(PID, 'scalar-equals-array', 'MaterialFile.n', cf + ',integer-wavelengths', dict(file=rel, wavelengths=wi), observed=gi[:3], expected=gf[:3])
+            except Exception as exc:
+                part.violation(PID, 'scalar-equals-array', 'MaterialFile.n', cf + ',integer-wavelengths', dict(file=rel, wavelengths=wi),
+                               observed=core.exc_text(exc), expected='same values as for float wavelengths')
         kref = rii.k(ref, ws)
         if kref is not None:
             try:
@@ -198,6 +216,11 @@ def run_lookup2(part, unit):
             part.violation(PID, 'exact-name-lookup', 'Material.__init__', c, dict(query=[cat, refname]),
                            observed=dict(category_name=got.get('category_name'), reference=got.get('reference')),
                            expected='an entry with that category_name')
+        elif str(got.get('reference')) != refname:
+            # (name, reference) names one catalogue row exactly: that row is the answer, not one whose reference merely contains it
+            part.violation(PID, 'exact-name-and-reference-lookup', 'Material.__init__', 'query=category_name+reference,reference-is-substring-of-another',
+                           dict(query=[cat, refname]), observed=dict(category_name=got.get('category_name'), reference=got.get('reference')),
+                           expected=dict(category_name=cat, reference=refname))
         part.outcome(cat, refname)
     part.sample(dict(queries=unit['queries'][:2]))
 
